@@ -530,7 +530,7 @@ pub fn run(cfg: &Cfg, out: &mut Out) {
     let root = View::make_root(CommitId::new(vec![0]));
     one_view(out, &st, &mut seen, &root, "root");
     for _ in 0..40 { let m = mutate_view(&mut r, &root); one_view(out, &st, &mut seen, &m, "single-edit"); }
-    let n_views = cfg.n(2500, 60_000);
+    let n_views = cfg.n(2000, 60_000);
     let mut prev = root.clone();
     for i in 0..n_views {
         let v = match r.below(10) {
@@ -544,7 +544,7 @@ pub fn run(cfg: &Cfg, out: &mut Out) {
     }
     let mut seen_ops = Seen::default();
     let mut r = cfg.rng(17);
-    let n_ops = cfg.n(2500, 60_000);
+    let n_ops = cfg.n(2000, 60_000);
     let mut prev = gen_op(&mut r, false);
     for _ in 0..n_ops {
         let o = match r.below(12) {
@@ -557,7 +557,7 @@ pub fn run(cfg: &Cfg, out: &mut Out) {
         if op_wf(&o.0) { prev = o.0; }
     }
     let mut r = cfg.rng(18);
-    for n in 0..cfg.n(1500, 40_000) { let p = gen_pview(&mut r); one_pview(out, &st, n, &p); }
+    for n in 0..cfg.n(1200, 40_000) { let p = gen_pview(&mut r); one_pview(out, &st, n, &p); }
     std::panic::set_hook(prev_hook);
     out.note(format!("{} distinct views, {} distinct operations; every value written to two stores and read back from a fresh store instance", seen.by_value.len(), seen_ops.by_value.len()));
 }
